@@ -19,7 +19,7 @@ def cfgOfFacts (f : Facts.ExecFacts) : Cfg :=
 def FactsSafe (f : Facts.ExecFacts) : Prop :=
   f.recognised = true ∧ f.order = [.add, .pub, .spawn] ∧ f.collectorSelfSendsErr = false ∧
   f.collectors = 1 ∧ f.collectorInLoop = false ∧ f.doneAfterInsert = true ∧ f.doneOnEveryPath = true ∧
-  f.rootAddSpawnWait = true
+  f.errsBeforeDone = true ∧ f.rootAddSpawnWait = true
 
 instance (f : Facts.ExecFacts) : Decidable (FactsSafe f) := by unfold FactsSafe; exact inferInstance
 
